@@ -19,6 +19,15 @@ CHECKS = {
  "C05": ("reference-model monitor over the 20 public driver functions with generated asymmetric functions R^n -> R^m; per-index seeded scalar model algebras supply every expected entry; try_ variants checked for error pass-through and bitwise equality",
          "Runtime monitoring of seeding/extraction/orientation: ~8e4 (quick) / ~4e6 (thorough) driver calls over static lengths 1..6, dynamic 0..6, non-square Jacobians (static, dynamic, mixed), partial Hessians (m,n), all n^3 index triples of third_partial_derivative_vec, element types f64, f32 and Dual64, outputs that are true constants.",
          "expected values from the tracked model (K=32); libm trusted", "DESIGN.md 3/C05"),
+ "C06": ("differential / metamorphic monitors: bitwise invariance of every program node's real part under perturbed derivative parts, agreement with the same program on plain floats, comparison/predicate/selection tables against the float answers, branch-trace equality, float instances vs std",
+         "Runtime monitoring: ~7e5 (quick) / ~6e7 (thorough) observations over 42 types; perturbations include huge (1e300), tiny, zero and absent parts; comparison tables use equal / 1-ulp-apart / signed-zero / tiny / huge real parts on the field-compatible types; guarded programs record branch traces that must equal the float run's.",
+         "single-float-operation nodes within 4 ulp of the float (0 observed), compositions within the tracked bound; signum(-0.0) excluded from float equality", "DESIGN.md 3/C06"),
+ "C07": ("differential monitor on the vector-valued types: programs and compound-assignment histories run under all 2^k absent/explicit-zero representations of the zero parts of every input, node-by-node numerical identity; histories also against the non-assigning operators",
+         "Runtime monitoring: ~4e5 (quick) / ~2e7 (thorough) runs over 25 vector-valued types (static, dynamic, f32, nested); exhaustive 2^k enumeration per case for k <= 8; histories of up to 30 compound assignments starting from a constant accumulator.",
+         "finite operands; -0.0 == +0.0; conversions (C13) and drivers (C05) with absent parts are monitored there", "DESIGN.md 3/C07"),
+ "C08": ("differential monitor: every generated operator / conversion implementation against the reference form &a op &b with lifted scalars, on every type",
+         "Runtime monitoring: ~9e5 (quick) / ~9e7 (thorough) form comparisons over 43 types and 90 forms (owned/borrowed/mixed, assign, scalar, neg, inv, mul_add, Sum/Product by value and reference for lengths 0..5, From<F>, 14 FromPrimitive conversions, Zero/One, 19 FloatConst constants), with hostile real parts (exact 0 with non-zero parts, exact 1).",
+         "exact comparison except scalar division (6 ulp) and the two num-traits default constants LOG10_2 / LOG2_10 (2 ulp)", "DESIGN.md 3/C08"),
  "C01": ("reference-model monitor: every call of every elementary function on every type vs power-series Taylor composition, stratified random inputs",
          "Runtime monitoring: the real functions are executed on ~3e5 (quick) / ~1e7 (thorough) generated operands over 51 type instantiations and every argument region; each result part is compared with an independent truncated-Taylor-algebra model within 32*u*sum|terms|. Holds on what was observed, not a proof.",
          "trusts libm for g(x0); tolerance constant calibrated on the unchanged tree (max observed ratio < 10)", "DESIGN.md 3/C01"),
